@@ -121,6 +121,7 @@ def run(prog, rep, tier):
 
     r4 = rep.rule("R08.4", "driver feeds timer-expiry inputs only from the matching timer future")
     check_driver_inputs(prog, r4)
+    check_timer_replacement(prog, r4)
 
 
 def driver_tests_zero(prog, r):
@@ -160,6 +161,47 @@ def driver_tests_zero(prog, r):
     if n < 2:
         r.unanalysable("driver arms for Set*Timer: found %d Duration::from_secs(secs) sites under an Output match (want >= 2)" % n)
     return res
+
+
+def check_timer_replacement(prog, r):
+    """(Re-)arming a timer replaces the pending deadline: the driver assigns a fresh one-element collection to
+    holdtime_futures / keepalive_futures.  Pushing onto the existing collection keeps the superseded deadlines alive,
+    and each of them later fires a timer-expiry input."""
+    n = 0
+    for k in crate_fns(prog, "rustybgpd"):
+        ix = prog.ix[k]
+        nm = ix["name"]
+        if "::tests::" in nm:
+            continue
+        names = [c["f"].get("name", "") for c in ix["calls"]]
+        if not any(re.search(r"FuturesUnordered::<Fut>::push$|FuturesUnordered<.*>::push$", x) for x in names):
+            continue
+        fv = view(prog, k)
+        rend = Renderer(fv, depth=8)
+        for bi, t in fv.calls(re.compile(r".*FuturesUnordered::<Fut>::push$")):
+            e = rend.operand(t["args"][0], 8)
+            fs = set(expr_fields(e))
+            hit = fs & {"holdtime_futures", "keepalive_futures"}
+            if hit:
+                n += 1
+                r.fail(root_name(prog, k), "timer-accumulated:" + sorted(hit)[0], "a timer deadline is pushed onto %s (line %d) instead of replacing it: the superseded deadline still fires and tears the "
+                       "session down although the timer was re-armed or disarmed" % (sorted(hit)[0], fv.line(bi)), fv.loc(bi))
+    # positive side: the Set*Timer arms assign the fields
+    ak = [k for k in crate_fns(prog, "rustybgpd") if prog.ix[k]["name"].endswith("PeerSession::apply_outputs")]
+    for k in ak:
+        fv = view(prog, prog.body_key(k))
+        r.analysed(fv.name)
+        for fld in ("holdtime_futures", "keepalive_futures"):
+            ws = list(field_writes(fv, fld))
+            # `self.f = iter.collect()` stores the call result straight into the field
+            from ..util import last_field
+            ws += [(b, "t", t) for b, t in fv.calls() if t.get("dest") and last_field(t["dest"]) == fld]
+            if ws:
+                r.ok("apply_outputs: %s is replaced by assignment (%d site(s))" % (fld, len(ws)))
+            else:
+                r.fail(fv.name, "timer-not-replaced:" + fld, "apply_outputs never assigns %s: re-arming does not replace the pending deadline" % fld, fv.loc())
+    if not ak:
+        r.unanalysable("PeerSession::apply_outputs not found")
 
 
 def check_driver_inputs(prog, r):
